@@ -63,9 +63,24 @@ def parseSc (s : String) : List ScenarioCfg :=
         requests := (splitNE shoots "|").map fun sh => (unesc sh).toList }
     | _ => { name := (unesc one).toList, weight := 0, minWaitingTime := 0, requests := [] }
 
+/-- run-length form of a step list (tail recursive: lists of 2^20 steps are within the domain): `(step, pause, run)` -/
+def rleGo : List (List Char × Int) → Option (List Char × Int × Nat) → List (List Char × Int × Nat) → List (List Char × Int × Nat)
+  | [], none, acc => acc.reverse
+  | [], some c, acc => (c :: acc).reverse
+  | (n, s) :: rest, none, acc => rleGo rest (some (n, s, 1)) acc
+  | (n, s) :: rest, some (n0, s0, k), acc =>
+    if n == n0 && s == s0 then rleGo rest (some (n0, s0, k + 1)) acc
+    else rleGo rest (some (n, s, 1)) ((n0, s0, k) :: acc)
+
+/-- `<step>/<pause>` entries, a run of k > 1 equal consecutive entries written once as `<step>/<pause>*k` (mirror of
+`describeSteps` of harness/cmd/c15/prov.go) -/
+def stepsText (steps : List (List Char × Int)) : String :=
+  String.intercalate "," ((rleGo steps none []).map fun (n, s, k) =>
+    esc (String.ofList n) ++ "/" ++ toString s ++ (if k > 1 then "*" ++ toString k else ""))
+
 def descr {ρ} (sc : Scenario ρ) : String :=
   esc (String.ofList sc.name) ++ "@" ++ toString sc.minWaitingTime ++ "[" ++
-    String.intercalate "," (sc.steps.map fun st => esc (String.ofList st.name) ++ "/" ++ toString st.sleep) ++ "]"
+    stepsText (sc.steps.map fun st => (st.name, st.sleep)) ++ "]"
 
 def dedup (l : List String) : List String :=
   l.foldl (fun acc x => if acc.contains x then acc else acc ++ [x]) []
@@ -78,17 +93,20 @@ def outcomeStr {α} (o : Outcome α) (f : α → String) : String :=
   | .err "sleepfirst" => "err=sleepfirst"
   | .err "negweight" => "err=negweight"
   | .err "toomany" => "err=toomany"
+  | .err "toolarge" => "err=toolarge"
   | .err e => "err=other:" ++ e
   | .panic p => "panic:" ++ p
 
 def lastWins (names : List (List Char)) (k : List Char) : Option Unit :=
   if names.contains k then some () else none
 
-/-- is every number of the description small enough for int64 ms→ns arithmetic not to wrap? -/
+/-- is every number of the description small enough for int64 arithmetic not to wrap (pauses: ms→ns; weights: the sum of at
+most a few weights below 2^40)? The repeat count of a request item needs no bound: `cnt > MaxScenarioRequests - len` is
+evaluated without overflow for every int (round 6); the count of a `sleep` item is a pause. -/
 def smallNums (scs : List ScenarioCfg) : Bool :=
-  scs.all fun sc => sc.weight.natAbs < 1000000 && sc.minWaitingTime.natAbs < 1000000000 &&
+  scs.all fun sc => sc.weight.natAbs < 1099511627776 && sc.minWaitingTime.natAbs < 1000000000 &&
     sc.requests.all fun sh => match parseShootName sh with
-      | .ok it => it.cnt.natAbs < 100000 && it.sleep.natAbs < 1000000000
+      | .ok it => (it.name != sleepName || it.cnt.natAbs < 1000000000) && it.sleep.natAbs < 1000000000
       | .error _ => true
 
 def allDistinct {α} [BEq α] : List α → Bool
@@ -116,8 +134,7 @@ def domain (reqNames : List (List Char)) (scs : List ScenarioCfg) : Option Strin
 
 def specDescr (sc : ScenarioCfg) : Option String :=
   (specSteps (sc.requests.filterMap fun sh => (parseShootName sh).toOption)).map fun steps =>
-    esc (String.ofList sc.name) ++ "@" ++ toString sc.minWaitingTime ++ "[" ++
-      String.intercalate "," (steps.map fun (n, s) => esc (String.ofList n) ++ "/" ++ toString s) ++ "]"
+    esc (String.ofList sc.name) ++ "@" ++ toString sc.minWaitingTime ++ "[" ++ stepsText steps ++ "]"
 
 /-! ### kind=prov -/
 
@@ -141,6 +158,11 @@ def handleProv (kv : List (String × String)) (impl : String) : String × String
       if impl.startsWith "err=" then "skip:leading-sleep" else s!"fail:crash:leading sleep not refused: {impl.take 60}"
     | some why => "skip:" ++ why
     | none =>
+      -- a list that expands beyond 2^20 steps / weights that spread beyond 2^24 ammo have no execution: they must be
+      -- refused with an error (repairs 1eaf10a, 4cfc662), not allocated
+      if (match ring with | .err "toomany" => true | .err "toolarge" => true | _ => false) then
+        (if impl.startsWith "err=" then "skip:oversized-refused" else s!"fail:crash:oversized description not refused: {impl.take 60}")
+      else
       if !impl.startsWith "ok " then s!"fail:crash:{impl.take 60}" else
       let ikv := parseKV impl
       let deliv := (splitNE (getS ikv "ring") "|").map fun s => (unesc s).toList
